@@ -17,9 +17,10 @@
 (*   K3  every label named by a goto is defined in the function;               *)
 (*   K4  a label is defined at most once.                                      *)
 (* K3 and K4 are constraints on the *program*; the compiler has to diagnose    *)
-(* their violation (then nothing is emitted with status 0).  The current code  *)
-(* does not: gotolabel.defined is written but never read.  The two missing     *)
-(* diagnostics are the NAMED deviations                                        *)
+(* their violation (then nothing is emitted with status 0).  The code as      *)
+(* found did not: gotolabel.defined was written but never read (repaired by    *)
+(* the fix: commits bebf93d and f515711 after this model reported it).  The    *)
+(* two missing diagnostics are the NAMED deviations                            *)
 (*   DevUndefinedGoto   - emitfunc is reached although a goto label is not     *)
 (*                        defined  (`void f(void){ goto l; }`)                  *)
 (*   DevDuplicateLabel  - funclabel is called again for a label that is        *)
